@@ -18,6 +18,7 @@ SYSTEMS = {
     "custom": ("custom", [[(3, 1), (1, 3)], [(2, 3)]]),
     "single": ("custom", [[(2, 2)]]),
     "custom3": ("custom", [[(3, 1), (2, 2), (1, 4)], [(2, 2), (1, 4)], [(2, 4)]]),
+    "custom5": ("custom", [[(5, 1), (2, 2)]]),
 }
 
 
@@ -217,6 +218,13 @@ def configs(tier, seed):
         for mode in ("min", "max"):
             out.append(dict(sys=name, mode=mode, W=T, T=T, F=0, seed=seed, perms={}, use_mra=True, scratch=False, flood=True,
                             max_states=1500 if tier == "quick" else 8000))
+    # a rung in which several jobs fail although more trials survive than the next rung has slots (5 -> 2 with two failures):
+    # the failed ones must neither be resumed nor enlarge the next rung
+    for mode in ("min", "max"):
+        for W in ((2,) if tier == "quick" else (1, 2, 3)):
+            out.append(dict(sys="custom5", mode=mode, W=W, T=6, F=2, seed=seed, perms={"1": rotate(all_perms(6), seed + W)[0]},
+                            use_mra=(mode == "min"), scratch=False, zero_rank=None, id0=0,
+                            max_states=5000 if tier == "quick" else 15000))
     # DEHB: structural subset
     for rf in ([(3, 1), (2, 2), (1, 4)], [(2, 1), (1, 3)]):
         for mode in ("min", "max"):
